@@ -2,23 +2,24 @@
    run-time evaluation (RtEval.rt_eval, from front/emit.c + back/vmexec.c), for ALL literal
    expression trees and ALL operand values, by induction on the tree.
 
-   On the faithful model of the pinned tree the full statements are FALSE; each is refuted with
-   a concrete witness (`_refuted`) and proved for the trees that avoid the defective nodes
+   Full statements that are FALSE on the faithful model of the tree are refuted with a
+   concrete witness (`_refuted`) and proved for the trees that avoid the defective nodes
    (`_partial`):
-     fold_agrees_with_runtime      refuted by  5000000000L * 2L  (folded through int_value),
-                                               true != false     (emitted as OP_EQ_INT),
-                                               E::C < 9          (no opcode: emitter aborts);
+     fold_agrees_with_runtime      refuted by  E::C < 9   (folded, but no opcode: the emitter
+                                               aborts on the variable version);
      fold_div0_is_runtime_fault    refuted by  false && (1/0 == 0), true ? 1 : 1/0
                                                (rejected although never evaluated);
-     fold_never_crashes            refuted by  (-2147483648) / (-1)  (SIGFPE in the compiler). *)
+     fold_never_crashes            refuted by  E::M / -1 with M = INT_MIN (the enum arms of
+                                               expr_div_constred still use the raw C division:
+                                               SIGFPE in the compiler, the VM wraps). *)
 From Coq Require Import ZArith Bool List Lia.
 From NV Require Import Arith.NumTy Arith.Bits Arith.IntOps Arith.FloatOps Arith.VMOps
-  Arith.Promote Arith.RtEval Arith.Constred.
+  Arith.Promote Arith.RtEval Arith.Constred Arith.IntOpsProofs.
 Local Open Scope Z_scope.
 
 Local Opaque iadd isub imul ineg idiv imod iand ior ixor ibnot ishl ishr i2l l2i
   fadd fsub fmul fdiv fneg fltb fgtb fleb fgeb feqb fneb fis_zero of_Z to_Z f2d d2f
-  int_value_of_long.
+  cdiv cmod.
 
 (* ---- typing inversions -------------------------------------------------------------- *)
 
@@ -69,8 +70,8 @@ Proof. intros. cbn [run]. now rewrite H0, (sel_conv_congr c a a' H). Qed.
 
 (* ---- one node over literal children --------------------------------------------------- *)
 
-Definition node_defect (o : binop) (ta : ty) : bool :=
-  match o with Mul => ty_eqb TLong ta | ONe => ty_eqb TBool ta | _ => false end.
+Definition node_enum_div (o : binop) (ta tb : ty) : bool :=
+  match o with Div | Mod => ty_eqb TEnum ta || ty_eqb TEnum tb | _ => false end.
 
 Definition node_lazy (o : binop) (ta tb : ty) : bool :=
   match o with
@@ -82,24 +83,31 @@ Definition node_lazy (o : binop) (ta tb : ty) : bool :=
 Lemma red_bin_sound : forall o la lb t,
   ty_of (EBin o (ELit la) (ELit lb)) = Some t ->
   is_shortcircuit o || is_some (sel_bin o (ELit la) (ELit lb)) = true ->
-  node_defect o (lit_ty la) = false ->
   match red_bin o la lb with
   | LR l => run (EBin o (ELit la) (ELit lb)) = Val (lit_val l) /\ lit_ty l = t
   | LRej => run (EBin o (ELit la) (ELit lb)) = Fault DivisionByZero
-  | LSig => run (EBin o (ELit la) (ELit lb)) = Crash SigFpe
+  | LSig => node_enum_div o (lit_ty la) (lit_ty lb) = true
   | LKeep => node_lazy o (lit_ty la) (lit_ty lb) = true
   end.
 Proof.
-  intros o la lb t Hty Hsel Hdef.
+  intros o la lb t Hty Hsel.
   destruct o, la, lb; cbn in Hty; try discriminate; cbn in Hsel; try discriminate;
-    cbn in Hdef; try discriminate; inversion Hty; subst; clear Hty Hsel Hdef;
+    inversion Hty; subst; clear Hty Hsel;
     cbn;
     try (split; reflexivity);
     try reflexivity;
-    try (match goal with |- context [idiv ?n ?x ?y] => destruct (idiv n x y) end; cbn;
-         try (split; reflexivity); reflexivity);
-    try (match goal with |- context [imod ?n ?x ?y] => destruct (imod n x y) end; cbn;
-         try (split; reflexivity); reflexivity);
+    try (match goal with |- context [cdiv ?n ?x ?y] =>
+           destruct (proj1 (raw_div_agrees n x y)) as [S|S]; rewrite S;
+           [cbn; reflexivity | idtac] end);
+    try (match goal with |- context [cmod ?n ?x ?y] =>
+           destruct (proj2 (raw_div_agrees n x y)) as [S|S]; rewrite S;
+           [cbn; reflexivity | idtac] end);
+    try (match goal with |- context [idiv ?n ?x ?y] =>
+           pose proof (idiv_not_sigfpe n x y) as NS; destruct (idiv n x y) end; cbn;
+         try (split; reflexivity); try reflexivity; exfalso; apply NS; reflexivity);
+    try (match goal with |- context [imod ?n ?x ?y] =>
+           pose proof (imod_not_sigfpe n x y) as NS; destruct (imod n x y) end; cbn;
+         try (split; reflexivity); try reflexivity; exfalso; apply NS; reflexivity);
     try (match goal with |- context [fis_zero ?f ?y] => destruct (fis_zero f y) end; cbn;
          try (split; reflexivity); reflexivity);
     try (match goal with |- context [if ?b then _ else _] => destruct b end; cbn;
@@ -141,7 +149,7 @@ Definition sound_for (e : expr) (t : ty) (r : fres) : Prop :=
       ty_of e' = Some t /\ emit_ok e' = true /\ run e' = run e /\
       (strict e = true -> exists l, e' = ELit l)
   | FReject => strict e = true -> run e = Fault DivisionByZero
-  | FCrash => strict e = true -> (run e = Crash SigFpe \/ run e = Fault DivisionByZero)
+  | FCrash => no_enum_div e = true -> False
   end.
 
 Lemma run_lit_val : forall l, run (ELit l) = Val (lit_val l).
@@ -187,24 +195,35 @@ Proof. reflexivity. Qed.
 Lemma emit_ok_cond : forall c a b, emit_ok (ECond c a b) = emit_ok c && emit_ok a && emit_ok b.
 Proof. reflexivity. Qed.
 
+Lemma no_enum_div_bin_inv : forall o a b, no_enum_div (EBin o a b) = true ->
+  no_enum_div a = true /\ no_enum_div b = true /\
+  (forall ta tb, ty_of a = Some ta -> ty_of b = Some tb -> node_enum_div o ta tb = false).
+Proof.
+  intros o a b H. cbn [no_enum_div] in H.
+  apply andb_true_iff in H. destruct H as [H H3].
+  apply andb_true_iff in H. destruct H as [H1 H2].
+  apply negb_true_iff in H3.
+  split; [assumption|]. split; [assumption|].
+  intros ta tb Ta Tb. unfold ty_is in H3. rewrite Ta, Tb in H3.
+  destruct o; try reflexivity; cbn; assumption.
+Qed.
+
 Ltac split4 := split; [|split; [|split]].
 Ltac not_val := let w := fresh in let H := fresh in intros w H; discriminate H.
 
 Theorem fold_sound : forall e t,
-  ty_of e = Some t -> emit_ok e = true -> no_known_defect e = true ->
-  sound_for e t (fold e).
+  ty_of e = Some t -> emit_ok e = true -> sound_for e t (fold e).
 Proof.
   induction e as [l | o a IHa | o a IHa b IHb | c a IHa | a IHa | c IHc a IHa b IHb];
-    intros t Hty Hem Hnd.
+    intros t Hty Hem.
   - (* literal *)
     cbn. repeat split; try assumption. intros _. eexists; reflexivity.
   - (* unary *)
     cbn [emit_ok] in Hem. apply andb_true_iff in Hem. destruct Hem as [Hema Hsel].
-    cbn [no_known_defect] in Hnd.
     assert (Hta : exists ta, ty_of a = Some ta).
     { cbn [ty_of] in Hty. destruct (ty_of a); [eexists; reflexivity | discriminate]. }
     destruct Hta as [ta Hta].
-    specialize (IHa ta Hta Hema Hnd).
+    specialize (IHa ta Hta Hema).
     cbn [fold]. destruct (fold a) as [a'| |]; cbn [sound_for] in IHa |- *.
     + destruct IHa as (Ta' & Ea' & Ra' & La').
       assert (Tc : ty_of a' = ty_of a) by congruence.
@@ -231,16 +250,12 @@ Proof.
         rewrite N2 in S. discriminate.
     + intro S. cbn [strict] in S. apply andb_true_iff in S. destruct S as [S _].
       cbn [run]. rewrite (IHa S). reflexivity.
-    + intro S. cbn [strict] in S. apply andb_true_iff in S. destruct S as [S _].
-      cbn [run]. destruct (IHa S) as [R|R]; rewrite R; [left|right]; reflexivity.
+    + intro Hn. cbn [no_enum_div] in Hn. exact (IHa Hn).
   - (* binary *)
     cbn [emit_ok] in Hem. apply andb_true_iff in Hem. destruct Hem as [Hem Hsel].
     apply andb_true_iff in Hem. destruct Hem as [Hema Hemb].
-    cbn [no_known_defect] in Hnd. apply andb_true_iff in Hnd. destruct Hnd as [Hnd Hdef].
-    apply andb_true_iff in Hnd. destruct Hnd as [Hnda Hndb].
-    apply negb_true_iff in Hdef.
     destruct (ty_of_bin_inv o a b t Hty) as (ta & tb & Hta & Htb & Hck).
-    specialize (IHa ta Hta Hema Hnda). specialize (IHb tb Htb Hemb Hndb).
+    specialize (IHa ta Hta Hema). specialize (IHb tb Htb Hemb).
     cbn [fold].
     destruct (fold a) as [a'| |]; destruct (fold b) as [b'| |];
       cbn [fseq sound_for] in IHa, IHb |- *.
@@ -268,18 +283,17 @@ Proof.
         try (apply KeepT; [reflexivity | reflexivity |
              intros _ Sb; destruct (Lb' Sb) as [l Hl]; discriminate Hl]).
       clear KeepT.
-      assert (Def' : node_defect o (lit_ty la) = false).
-      { unfold ty_is in Hdef. rewrite Hta in Hdef.
-        cbn [ty_of] in Tca. rewrite Hta in Tca. inversion Tca as [E]. rewrite E.
-        destruct o; try reflexivity; cbn [node_defect]; assumption. }
-      pose proof (red_bin_sound o la lb t Tyn Sel' Def') as N.
+      pose proof (red_bin_sound o la lb t Tyn Sel') as N.
       destruct (red_bin o la lb) as [l| | |]; cbn [of_lres sound_for].
       * destruct N as [N1 N2]. split4; [ | reflexivity | | ].
         -- cbn. now rewrite N2.
         -- rewrite <- Rn, N1. reflexivity.
         -- intros _. eexists; reflexivity.
       * intros _. rewrite <- Rn. exact N.
-      * intros _. left. rewrite <- Rn. exact N.
+      * intro Hn. destruct (no_enum_div_bin_inv _ _ _ Hn) as (_ & _ & Nz).
+        cbn [ty_of] in Tca, Tcb. rewrite Hta in Tca. rewrite Htb in Tcb.
+        inversion Tca as [E1]. inversion Tcb as [E2].
+        rewrite E1, E2 in N. rewrite (Nz ta tb Hta Htb) in N. discriminate N.
       * split; [assumption|]. split; [first [rewrite emit_ok_un, Sel' | rewrite emit_ok_bin, Sel']; reflexivity|]. split; [assumption|].
         intro S. destruct (strict_bin_inv _ _ _ S) as (_ & _ & _ & Lz).
         cbn [ty_of] in Tca, Tcb. rewrite Hta in Tca. rewrite Htb in Tcb.
@@ -291,33 +305,21 @@ Proof.
       destruct (La' Sa) as [l ->]. cbn [run] in Ra'.
       eapply run_bin_right_stops; [assumption | symmetry; exact Ra' | exact (IHb Sb) | not_val].
     + (* right crashed *)
-      destruct IHa as (Ta' & Ea' & Ra' & La').
-      intro S. destruct (strict_bin_inv _ _ _ S) as (Sa & Sb & Ss & _).
-      destruct (La' Sa) as [l ->]. cbn [run] in Ra'.
-      destruct (IHb Sb) as [R|R]; [left|right];
-        (eapply run_bin_right_stops; [assumption | symmetry; exact Ra' | exact R | not_val]).
+      intro Hn. destruct (no_enum_div_bin_inv _ _ _ Hn) as (_ & Nb & _). exact (IHb Nb).
     + intro S. destruct (strict_bin_inv _ _ _ S) as (Sa & Sb & Ss & _).
       eapply run_bin_left_stops; [assumption | exact (IHa Sa) | not_val].
     + intro S. destruct (strict_bin_inv _ _ _ S) as (Sa & Sb & Ss & _).
       eapply run_bin_left_stops; [assumption | exact (IHa Sa) | not_val].
-    + intro S. destruct (strict_bin_inv _ _ _ S) as (Sa & Sb & Ss & _). right.
-      eapply run_bin_left_stops; [assumption | exact (IHa Sa) | not_val].
-    + intro S. destruct (strict_bin_inv _ _ _ S) as (Sa & Sb & Ss & _).
-      destruct (IHa Sa) as [R|R]; [left|right];
-        (eapply run_bin_left_stops; [assumption | exact R | not_val]).
-    + intro S. destruct (strict_bin_inv _ _ _ S) as (Sa & Sb & Ss & _).
-      destruct (IHa Sa) as [R|R]; [left|right];
-        (eapply run_bin_left_stops; [assumption | exact R | not_val]).
-    + intro S. destruct (strict_bin_inv _ _ _ S) as (Sa & Sb & Ss & _).
-      destruct (IHa Sa) as [R|R]; [left|right];
-        (eapply run_bin_left_stops; [assumption | exact R | not_val]).
+    + intro Hn. destruct (no_enum_div_bin_inv _ _ _ Hn) as (_ & Nb & _). exact (IHb Nb).
+    + intro Hn. destruct (no_enum_div_bin_inv _ _ _ Hn) as (Na & _ & _). exact (IHa Na).
+    + intro Hn. destruct (no_enum_div_bin_inv _ _ _ Hn) as (Na & _ & _). exact (IHa Na).
+    + intro Hn. destruct (no_enum_div_bin_inv _ _ _ Hn) as (Na & _ & _). exact (IHa Na).
   - (* conversion *)
     cbn [emit_ok] in Hem. apply andb_true_iff in Hem. destruct Hem as [Hema Hsel].
-    cbn [no_known_defect] in Hnd.
     assert (Hta : exists ta, ty_of a = Some ta).
     { cbn [ty_of] in Hty. destruct (ty_of a); [eexists; reflexivity | discriminate]. }
     destruct Hta as [ta Hta].
-    specialize (IHa ta Hta Hema Hnd).
+    specialize (IHa ta Hta Hema).
     cbn [fold]. destruct (fold a) as [a'| |]; cbn [sound_for] in IHa |- *.
     + destruct IHa as (Ta' & Ea' & Ra' & La').
       assert (Tc : ty_of a' = ty_of a) by congruence.
@@ -335,11 +337,10 @@ Proof.
       * rewrite <- Rn, N1. reflexivity.
       * intros _. eexists; reflexivity.
     + intro S. cbn [strict] in S. cbn [run]. rewrite (IHa S). reflexivity.
-    + intro S. cbn [strict] in S. cbn [run].
-      destruct (IHa S) as [R|R]; rewrite R; [left|right]; reflexivity.
+    + intro Hn. cbn [no_enum_div] in Hn. exact (IHa Hn).
   - (* parentheses *)
-    cbn [emit_ok] in Hem. cbn [no_known_defect] in Hnd. cbn [ty_of] in Hty.
-    specialize (IHa t Hty Hem Hnd).
+    cbn [emit_ok] in Hem. cbn [ty_of] in Hty.
+    specialize (IHa t Hty Hem).
     cbn [fold]. destruct (fold a) as [a'| |]; cbn [sound_for] in IHa |- *.
     + destruct IHa as (Ta' & Ea' & Ra' & La').
       unfold node_sup. destruct a' as [la| | | | |]; cbn [sound_for].
@@ -347,12 +348,10 @@ Proof.
       all: (split4; [exact Ta' | exact Ea' | exact Ra' |
             intro S; cbn [strict] in S; destruct (La' S) as [l Hl]; discriminate Hl]).
     + intro S. cbn [strict] in S. cbn [run]. exact (IHa S).
-    + intro S. cbn [strict] in S. cbn [run]. exact (IHa S).
+    + intro Hn. cbn [no_enum_div] in Hn. exact (IHa Hn).
   - (* ?: *)
     cbn [emit_ok] in Hem. apply andb_true_iff in Hem. destruct Hem as [Hem Hemb].
     apply andb_true_iff in Hem. destruct Hem as [Hemc Hema].
-    cbn [no_known_defect] in Hnd. apply andb_true_iff in Hnd. destruct Hnd as [Hnd Hndb].
-    apply andb_true_iff in Hnd. destruct Hnd as [Hndc Hnda].
     assert (Htys : ty_of c = Some TBool /\ ty_of a = Some t /\ ty_of b = Some t).
     { cbn [ty_of] in Hty. destruct (ty_of c) as [[]|]; try discriminate.
       destruct (ty_of a) as [ta|]; try discriminate.
@@ -362,12 +361,15 @@ Proof.
       assert (t = tb) by (destruct t, tb; cbn in E; try discriminate; reflexivity).
       subst. repeat split. }
     destruct Htys as (Htc & Hta & Htb).
-    specialize (IHc TBool Htc Hemc Hndc). specialize (IHa t Hta Hema Hnda).
-    specialize (IHb t Htb Hemb Hndb).
+    specialize (IHc TBool Htc Hemc). specialize (IHa t Hta Hema).
+    specialize (IHb t Htb Hemb).
     cbn [fold].
     destruct (fold c) as [c'| |]; destruct (fold a) as [a'| |]; destruct (fold b) as [b'| |];
       cbn [fseq3 is_crash is_reject orb sound_for];
-      try (intro S; cbn [strict] in S; discriminate S).
+      try (intro S; cbn [strict] in S; discriminate S);
+      try (intro Hn; cbn [no_enum_div] in Hn; apply andb_true_iff in Hn; destruct Hn as [Hn Nb];
+           apply andb_true_iff in Hn; destruct Hn as [Nc Na];
+           first [exact (IHc Nc) | exact (IHa Na) | exact (IHb Nb)]).
     destruct IHc as (Tc' & Ec' & Rc' & _). destruct IHa as (Ta' & Ea' & Ra' & _).
     destruct IHb as (Tb' & Eb' & Rb' & _).
     assert (Keep : sound_for (ECond c a b) t (FOk (ECond c' a' b'))).
@@ -389,71 +391,98 @@ Qed.
 
 (* ---- the theorems ---------------------------------------------------------------------- *)
 
-(* the tree can be emitted and avoids the two value-level defects of the pinned tree *)
-Definition clean (e : expr) : bool := emit_ok e && no_known_defect e.
-
-Lemma clean_inv : forall e, clean e = true -> emit_ok e = true /\ no_known_defect e = true.
-Proof. intros e H. unfold clean in H. now apply andb_true_iff in H. Qed.
-
 Lemma rt_eval_run : forall e, emit_ok e = true -> rt_eval e = run e.
 Proof. intros e H. unfold rt_eval. now rewrite H. Qed.
 
 (* whatever the reducer leaves behind computes, at run time, exactly what the original
-   expression computes — same value bit for bit, same fault, same type *)
+   expression computes — same value bit for bit, same fault, same type.  The only side
+   condition: every node of e has an opcode (emit_ok; fails only for the enum cells of
+   Promote.emit_bin for which front/emit.c aborts). *)
 Theorem fold_agrees_with_runtime_partial : forall e t e',
-  ty_of e = Some t -> clean e = true -> fold e = FOk e' ->
+  ty_of e = Some t -> emit_ok e = true -> fold e = FOk e' ->
   ty_of e' = Some t /\ rt_eval e' = rt_eval e.
 Proof.
-  intros e t e' Hty Hc Hf. destruct (clean_inv e Hc) as [He Hn].
-  pose proof (fold_sound e t Hty He Hn) as S. rewrite Hf in S. cbn [sound_for] in S.
+  intros e t e' Hty He Hf.
+  pose proof (fold_sound e t Hty He) as S. rewrite Hf in S. cbn [sound_for] in S.
   destruct S as (T & E & R & _). split; [assumption|].
   now rewrite (rt_eval_run e' E), (rt_eval_run e He).
 Qed.
 
 (* in particular a folded literal IS the run-time value *)
 Theorem fold_literal_is_runtime_value : forall e t l,
-  ty_of e = Some t -> clean e = true -> fold e = FOk (ELit l) ->
+  ty_of e = Some t -> emit_ok e = true -> fold e = FOk (ELit l) ->
   rt_eval e = Val (lit_val l) /\ lit_ty l = t.
 Proof.
-  intros e t l Hty Hc Hf.
-  destruct (fold_agrees_with_runtime_partial e t (ELit l) Hty Hc Hf) as [T R].
+  intros e t l Hty He Hf.
+  destruct (fold_agrees_with_runtime_partial e t (ELit l) Hty He Hf) as [T R].
   split; [now rewrite <- R | now inversion T].
 Qed.
 
-(* every tree without lazily evaluated nodes folds completely: to a literal of its type, to
-   the division-by-zero rejection, or (pinned-tree defect) crashes the compiler *)
-Theorem fold_total : forall e t,
-  ty_of e = Some t -> clean e = true -> strict e = true ->
-  fold e = FCrash \/ fold e = FReject \/ exists l, fold e = FOk (ELit l) /\ lit_ty l = t.
+(* the reducer does not trap on trees without an enum operand under / or % *)
+Theorem fold_never_crashes_partial : forall e t,
+  ty_of e = Some t -> emit_ok e = true -> no_enum_div e = true -> fold e <> FCrash.
 Proof.
-  intros e t Hty Hc Hs. destruct (clean_inv e Hc) as [He Hn].
-  pose proof (fold_sound e t Hty He Hn) as S.
-  destruct (fold e) as [e'| |]; [|right; left; reflexivity | left; reflexivity].
-  right. right. cbn [sound_for] in S. destruct S as (T & _ & _ & L).
+  intros e t Hty He Hn Hf.
+  pose proof (fold_sound e t Hty He) as S. rewrite Hf in S. cbn [sound_for] in S. exact (S Hn).
+Qed.
+
+(* every tree without lazily evaluated nodes folds completely: to a literal of its type or to
+   the division-by-zero rejection *)
+Theorem fold_total : forall e t,
+  ty_of e = Some t -> emit_ok e = true -> no_enum_div e = true -> strict e = true ->
+  fold e = FReject \/ exists l, fold e = FOk (ELit l) /\ lit_ty l = t.
+Proof.
+  intros e t Hty He Hn Hs.
+  pose proof (fold_sound e t Hty He) as S.
+  destruct (fold e) as [e'| |]; [|left; reflexivity | exfalso; exact (S Hn)].
+  right. cbn [sound_for] in S. destruct S as (T & _ & _ & L).
   destruct (L Hs) as [l ->]. exists l. split; [reflexivity | now inversion T].
 Qed.
 
 Theorem fold_div0_is_runtime_fault_partial : forall e t,
-  ty_of e = Some t -> clean e = true -> strict e = true ->
+  ty_of e = Some t -> emit_ok e = true -> strict e = true ->
   fold e = FReject -> rt_eval e = Fault DivisionByZero.
 Proof.
-  intros e t Hty Hc Hs Hf. destruct (clean_inv e Hc) as [He Hn].
-  pose proof (fold_sound e t Hty He Hn) as S. rewrite Hf in S. cbn [sound_for] in S.
+  intros e t Hty He Hs Hf.
+  pose proof (fold_sound e t Hty He) as S. rewrite Hf in S. cbn [sound_for] in S.
   rewrite (rt_eval_run e He). exact (S Hs).
 Qed.
 
-(* when the compiler itself traps on a constant, the variable version does not produce a
-   value either: it traps in the VM, or faults earlier on a division by zero *)
-Theorem fold_crash_is_runtime_failure : forall e t,
-  ty_of e = Some t -> clean e = true -> strict e = true ->
-  fold e = FCrash -> rt_eval e = Crash SigFpe \/ rt_eval e = Fault DivisionByZero.
+(* the VM side never traps at all (after the fix of vm_execute_op_div/mod) *)
+Theorem run_never_traps : forall e, run e <> Crash SigFpe.
 Proof.
-  intros e t Hty Hc Hs Hf. destruct (clean_inv e Hc) as [He Hn].
-  pose proof (fold_sound e t Hty He Hn) as S. rewrite Hf in S. cbn [sound_for] in S.
-  rewrite (rt_eval_run e He). exact (S Hs).
+  assert (B : forall r k, (forall v, k v <> Crash SigFpe) -> r <> Crash SigFpe -> bind r k <> Crash SigFpe).
+  { intros r k Hk Hr. destruct r; cbn; [apply Hk | assumption | assumption]. }
+  assert (T : forall x k, (forall b, k b <> Crash SigFpe) -> of_truth x k <> Crash SigFpe).
+  { intros x k Hk. unfold of_truth. destruct (truth x); [apply Hk | discriminate]. }
+  assert (I : forall n mk o a b, exec_int_bop n mk o a b <> Crash SigFpe).
+  { intros n mk o a b. Local Transparent idiv imod.
+    destruct o; cbn; try discriminate; unfold idiv, imod;
+      destruct (b =? 0); try discriminate; destruct (b =? -1); discriminate. }
+  assert (F : forall f mk o a b, exec_flt_bop f mk o a b <> Crash SigFpe).
+  { intros f mk o a b. destruct o; cbn; try discriminate. destruct (fis_zero f b); discriminate. }
+  assert (V2 : forall op x y, exec_vmop2 op x y <> Crash SigFpe).
+  { intros [[o t| | | | |]|] x y; cbn; try discriminate.
+    destruct t, x, y; cbn; try discriminate; first [apply I | apply F]. }
+  assert (V1 : forall op x, exec_vmop1 op x <> Crash SigFpe).
+  { intros [[|o t|c| | |]|] x; cbn; try discriminate.
+    - destruct o, t, x; cbn; discriminate.
+    - destruct c, x; cbn; discriminate. }
+  induction e as [l | o a IHa | o a IHa b IHb | c a IHa | a IHa | c IHc a IHa b IHb]; cbn [run].
+  - discriminate.
+  - apply B; [intro; apply V1 | assumption].
+  - destruct o;
+      try (apply B; [intro va; apply B; [intro vb; apply V2 | assumption] | assumption]).
+    + apply B; [|assumption]. intro va. apply T. intros [|]; [|discriminate].
+      apply B; [|assumption]. intro vb. apply T. intro; discriminate.
+    + apply B; [|assumption]. intro va. apply T. intros [|]; [discriminate|].
+      apply B; [|assumption]. intro vb. apply T. intro; discriminate.
+  - apply B; [intro; apply V1 | assumption].
+  - assumption.
+  - apply B; [|assumption]. intro vc. apply T. intros [|]; assumption.
 Qed.
 
-(* ---- refutations on the faithful model of the pinned tree ------------------------------ *)
+(* ---- refutations on the faithful model of the tree --------------------------------------- *)
 
 Definition ex_long_mul : expr := EBin Mul (ELit (LLong 5000000000)) (ELit (LLong 2)).
 Definition ex_bool_neq : expr := EBin ONe (ELit (LBool true)) (ELit (LBool false)).
@@ -465,32 +494,41 @@ Definition ex_cond_div0 : expr :=
   ECond (ELit (LBool true)) (ELit (LInt 1)) (EBin Div (ELit (LInt 1)) (ELit (LInt 0))).
 Definition ex_int_min_div : expr := EBin Div (ELit (LInt (-2147483648))) (ELit (LInt (-1))).
 Definition ex_int_min_mod : expr := EBin Mod (ELit (LInt (-2147483648))) (ELit (LInt (-1))).
+Definition ex_enum_min_div : expr := EBin Div (ELit (LEnum (-2147483648))) (ELit (LInt (-1))).
 
-(* the full statement "fold e = literal v  ->  the VM computes v" is false *)
+(* the full statement "fold e = literal v  ->  the VM computes v" is false: the comparison of
+   an enum item with an int is folded, but the same comparison on variables has no opcode *)
 Theorem fold_agrees_with_runtime_refuted :
   exists e t l, ty_of e = Some t /\ fold e = FOk (ELit l) /\ rt_eval e <> Val (lit_val l).
 Proof.
-  exists ex_long_mul, TLong, (LLong 1410065408).
+  exists ex_enum_lt, TBool, (LBool true).
   split; [reflexivity|]. split; [vm_compute; reflexivity|].
   vm_compute. intro H. discriminate H.
 Qed.
-
-Theorem long_mul_fold_is_wrong :
-  fold ex_long_mul = FOk (ELit (LLong 1410065408)) /\ rt_eval ex_long_mul = Val (VLong 10000000000).
-Proof. split; vm_compute; reflexivity. Qed.
-
-Theorem bool_neq_runtime_is_wrong :
-  fold ex_bool_neq = FOk (ELit (LBool true)) /\ rt_eval ex_bool_neq = Val (VInt 0).
-Proof. split; vm_compute; reflexivity. Qed.
 
 Theorem enum_compare_is_not_emitted :
   ty_of ex_enum_lt = Some TBool /\ fold ex_enum_lt = FOk (ELit (LBool true)) /\
   rt_eval ex_enum_lt = Crash EmitAssert.
 Proof. repeat split; vm_compute; reflexivity. Qed.
 
+(* regression statements for the defects fixed in the tree *)
+Theorem long_mul_folds_like_runtime :
+  fold ex_long_mul = FOk (ELit (LLong 10000000000)) /\ rt_eval ex_long_mul = Val (VLong 10000000000).
+Proof. split; vm_compute; reflexivity. Qed.
+
+Theorem bool_neq_folds_like_runtime :
+  fold ex_bool_neq = FOk (ELit (LBool true)) /\ rt_eval ex_bool_neq = Val (VInt 1).
+Proof. split; vm_compute; reflexivity. Qed.
+
+Theorem int_min_div_wraps_both_sides :
+  fold ex_int_min_div = FOk (ELit (LInt (-2147483648))) /\
+  rt_eval ex_int_min_div = Val (VInt (-2147483648)) /\
+  fold ex_int_min_mod = FOk (ELit (LInt 0)) /\ rt_eval ex_int_min_mod = Val (VInt 0).
+Proof. repeat split; vm_compute; reflexivity. Qed.
+
 (* the statement "rejected as constant division by zero -> the VM faults" is false *)
 Theorem fold_div0_is_runtime_fault_refuted :
-  exists e t v, ty_of e = Some t /\ clean e = true /\ fold e = FReject /\ rt_eval e = Val v.
+  exists e t v, ty_of e = Some t /\ emit_ok e = true /\ fold e = FReject /\ rt_eval e = Val v.
 Proof.
   exists ex_and_div0, TBool, (VInt 0). repeat split; vm_compute; reflexivity.
 Qed.
@@ -499,15 +537,14 @@ Theorem cond_div0_is_rejected_but_runs :
   ty_of ex_cond_div0 = Some TInt /\ fold ex_cond_div0 = FReject /\ rt_eval ex_cond_div0 = Val (VInt 1).
 Proof. repeat split; vm_compute; reflexivity. Qed.
 
-(* "the reducer is total" is false: the compiler dies on a constant *)
+(* "the reducer never traps" is false: an enumerator equal to INT_MIN divided by -1 still goes
+   through the raw C division inside the compiler, while the VM wraps *)
 Theorem fold_never_crashes_refuted :
-  exists e t, ty_of e = Some t /\ clean e = true /\ strict e = true /\ fold e = FCrash.
-Proof. exists ex_int_min_div, TInt. repeat split; vm_compute; reflexivity. Qed.
-
-Theorem int_min_div_traps_both_sides :
-  fold ex_int_min_div = FCrash /\ rt_eval ex_int_min_div = Crash SigFpe /\
-  fold ex_int_min_mod = FCrash /\ rt_eval ex_int_min_mod = Crash SigFpe.
-Proof. repeat split; vm_compute; reflexivity. Qed.
+  exists e t v, ty_of e = Some t /\ emit_ok e = true /\ strict e = true /\
+    fold e = FCrash /\ rt_eval e = Val v.
+Proof.
+  exists ex_enum_min_div, TInt, (VInt (-2147483648)). repeat split; vm_compute; reflexivity.
+Qed.
 
 (* ---- elaboration produces trees the theorems apply to ------------------------------------ *)
 
